@@ -74,6 +74,9 @@ def threshold_cnf(draw, nmax=40):
     for _ in range(draw(st.sampled_from([0, 0, 1, 2, 3]))):
         v = draw(st.sampled_from(vs))
         clauses.append([v if draw(st.booleans()) else -v])
+    if draw(st.integers(0, 2)) == 0:  # repeated clauses (same clause listed twice or more) are valid input too
+        for _ in range(draw(st.integers(1, 4))):
+            clauses.append(list(clauses[draw(st.integers(0, len(clauses) - 1))]))
     clauses = draw(st.permutations(clauses))
     return {"family": "threshold", "clauses": [list(c) for c in clauses], "assumptions": draw(assumptions_for(vs)), "opts": draw(options(big=True))}
 
